@@ -738,6 +738,42 @@ function createRoot(job, groupList, ctx, data) {
   return ge.Component.createWithContext('root', rootDef.general(), backendOf(cfg.backend || 'composed'))
 }
 
+// A child component's "fresh creation" inside its host is not a pure creation: the runtime creates it
+// with default property values and then updates it. The pure reference for a child is the same
+// component created on its own with the current property values as its creation-time data.
+function standaloneChildShadow(job, groupList, childIs, props) {
+  const ctx = newCtx(true)
+  const saved = CTX
+  CTX = ctx
+  try {
+    const cs = new ge.ComponentSpace()
+    const cfg = job.config || {}
+    let target = null
+    for (const c of job.components) {
+      if (c.root) continue
+      const properties = {}
+      for (const [k, p] of Object.entries(c.properties || {})) {
+        const v = c.is === childIs && Object.prototype.hasOwnProperty.call(props, k) ? clone(props[k]) : dec(p.value)
+        properties[k] = { type: p.type === 'any' ? null : TYPE[p.type], value: v }
+      }
+      const options = { ...(c.options || {}) }
+      if (cfg.dataDeepCopy) options.dataDeepCopy = cfg.dataDeepCopy
+      if (cfg.propertyPassingDeepCopy) options.propertyPassingDeepCopy = cfg.propertyPassingDeepCopy
+      const content = groupList[c.path]
+      if (typeof content !== 'function') throw new Error('no template ' + c.path)
+      const template = { groupList, content: wrapContent(content, c.is, ctx) }
+      if (cfg.updateMode) template.updateMode = cfg.updateMode
+      const def = cs.defineComponent({ is: c.is, using: c.using || {}, options, properties, data: clone(dec(c.data || {})), methods: {}, template })
+      if (c.is === childIs) target = def
+    }
+    if (!target) return null
+    const inst = ge.Component.createWithContext(childIs, target.general(), backendOf(cfg.backend || 'composed'))
+    return enc(ser(inst.getShadowRoot()))
+  } finally {
+    CTX = saved
+  }
+}
+
 function freshTree(job, groupList, data) {
   const ctx = newCtx(true)
   const saved = CTX
@@ -1088,6 +1124,31 @@ function runWorld(job) {
       return
     }
     if (events.length) bump(ctx, 'step.flushes_compared_equal')
+    // children: live == fresh can hide a defect that only the update path of a child template has,
+    // because the fresh child was updated the same way; compare with a pure creation of the child
+    if (events.some((e) => e.st !== rootSt)) {
+      for (const ch of collectChildren(root)) {
+        let alone
+        try {
+          alone = standaloneChildShadow(job, groupList, ch.is, ch.data)
+        } catch (e) {
+          bump(ctx, 'discard.standalone_child_throws')
+          continue
+        }
+        if (alone === null) continue
+        bump(ctx, 'step.child_pure_creation_compared')
+        const liveChild = enc(ser(ch.getShadowRoot()))
+        if (liveChild !== alone) {
+          const hasFast = [...kinds].some((k) => k.startsWith('fast'))
+          const hasTree = [...kinds].some((k) => k.startsWith('tree'))
+          const prop = hasFast && !hasTree ? 'C07' : 'C06'
+          res.locus = ['(shadow)', ch.is, '/shadow']
+          violation(prop, hasFast && !hasTree ? 'fast_path_stale' : hasFast ? 'mixed_path_stale' : 'tree_path_stale', `${label}: the shadow tree of child <${ch.is}> differs from a pure creation of that component with the same property values (update kinds: ${[...kinds].join(',')})\n${classifyMismatch(liveChild, alone)}\n child data: ${enc(ch.data).slice(0, 400)}`)
+          ended = 'mismatch'
+          return
+        }
+      }
+    }
     // C11 over the history: every live model listener still addresses what its element displays
     checkLiveModelPaths()
     checkEventDelivery(ctx, root, violation)
